@@ -36,6 +36,7 @@ def run(ctx):
     c16_4b(ctx)
     c16_1b(ctx)
     c16_sk(ctx)
+    c16_eq(ctx)
 
 
 def c16_1(ctx):
@@ -371,3 +372,26 @@ def c16_sk(ctx):
     z = [str(apnf.N(b.operand_term(t["args"][0]))) for bi, n, t in b.calls() if U.flat(n).endswith("is_all_zero")]
     ctx.ob(R, "secret-key:range", rows == exp and z == ["('as &[u8]', 'bytes')"],
            "SecretKey::from_bytes = zero key, or whatever blst_sk_check admits; nothing else", found=sorted(map(str, rows ^ exp))[:3] or None, where=b.fn.sp)
+
+
+def c16_eq(ctx):
+    """'survives serialize/parse unchanged' is judged by ==: equality of points is the blst projective comparison (an infinity
+    reached by arithmetic equals the parsed infinity although their coordinates differ), of pairing elements blst_fp12_is_equal,
+    of secret keys the scalar's byte equality -- each a single unconditional call on the two wrapped values."""
+    from .. import apnf
+    R = "C16.5"
+    want = {"public_key::PublicKey": "blst_p1_is_equal", "signature::Signature": "blst_p2_is_equal",
+            "gtelement::GTElement": "blst_fp12_is_equal", "secret_key::SecretKey": "eq"}
+    n = 0
+    for ty, prim in want.items():
+        f = ctx.fb.fns.get("<chia_bls::%s as core::cmp::PartialEq>::eq" % ty)
+        if f is None:
+            ctx.missing(R, "eq:" + ty, "impl PartialEq not found")
+            continue
+        b = Body(f, ctx.fb)
+        ctx.touched(b.path)
+        rows = {(ex[0], str(apnf.N(P.ret_of(ev))) if ex[0] == "return" else "", len(P.conds(ev))) for ev, ex in P.enumerate_paths(b)}
+        n += 1
+        ctx.ob(R, "eq:" + ty.split("::")[-1], rows == {("return", "('%s', ('.0', 'self'), ('.0', 'other'))" % prim, 0)},
+               "%s == is %s(&self.0, &other.0), unconditionally" % (ty.split("::")[-1], prim), found=sorted(map(str, rows))[:2], where=f.sp)
+    ctx.floor(R, "equality impls of BLS types", n, 4)
